@@ -370,10 +370,14 @@ func (u *Unit) merge(states []*State, label string) *State {
 	}
 	sort.Strings(gks)
 	for _, k := range gks {
-		first, ok0 := live[0].ghost[k]
-		same := ok0
+		srt := u.ghostSort[k]
+		if srt == "" {
+			continue
+		}
+		first := u.ghostOf(live[0], k)
+		same := true
 		for _, s := range live[1:] {
-			if v, ok := s.ghost[k]; !ok || v != first {
+			if u.ghostOf(s, k) != first {
 				same = false
 			}
 		}
@@ -381,15 +385,9 @@ func (u *Unit) merge(states []*State, label string) *State {
 			out.ghost[k] = first
 			continue
 		}
-		srt := u.ghostSort[k]
-		if srt == "" {
-			continue
-		}
 		n := u.w.newConst("g:"+k, srt)
 		for _, s := range live {
-			if v, ok := s.ghost[k]; ok {
-				u.fact(implies(s.pc, eq(n, v)))
-			}
+			u.fact(implies(s.pc, eq(n, u.ghostOf(s, k))))
 		}
 		out.ghost[k] = n
 	}
